@@ -494,7 +494,21 @@ where
                         }
                         FrameKind::Aligned => with_align!(n, N => scope.aligned::<N, _>(|inner| frame(inner, orig, it, false))),
                         FrameKind::ScopedAligned => with_align!(n, N => scope.scoped_aligned::<N, _>(|inner| frame(inner, orig, it, false))),
-                        FrameKind::Settings => harness_bug("settings frames are not driven by the generic frame loop".into()),
+                        FrameKind::Settings => {
+                            if n & 0x100 == 0 {
+                                let inner = scope.borrow_mut_with_settings::<S::WithMinimumAlignment<16>>();
+                                frame(inner, orig, it, false)
+                            } else {
+                                match scope.try_by_value() {
+                                    Ok(v) => {
+                                        let mut v = v.with_settings::<S::WithMinimumAlignment<16>>();
+                                        frame(&mut v, orig, it, false)
+                                    }
+                                    // creating the first chunk was refused: nothing to convert
+                                    Err(_) => Flow::Exit,
+                                }
+                            }
+                        }
                         FrameKind::Claim => {
                             drop(orig);
                             let shared: &BumpScope<'a, A, S> = &*scope;
